@@ -121,9 +121,19 @@ func genStems(t *rapid.T, label string) [][2]t1ref.Num {
 func genContours(t *rapid.T, g *t1ref.Glyph, intOnly bool, opts ModelOpts, hasStems bool) (feat map[string]bool) {
 	feat = map[string]bool{}
 	nc := rapid.IntRange(0, 3).Draw(t, "contours")
+	// one glyph in twelve is long: its charstring (600-4000 bytes) does not
+	// fit into one read of a 512-byte buffer
+	long := rapid.IntRange(0, 11).Draw(t, "longglyph") == 0
+	if long {
+		nc = rapid.IntRange(3, 6).Draw(t, "longcontours")
+		feat["long-charstring"] = true
+	}
 	for c := 0; c < nc; c++ {
 		g.Segs = append(g.Segs, t1ref.Seg{Kind: t1ref.SegMove, D: []t1ref.Num{genNum(t, "mx", intOnly), genNum(t, "my", intOnly)}})
 		ns := rapid.IntRange(1, 6).Draw(t, "segs")
+		if long {
+			ns = rapid.IntRange(10, 30).Draw(t, "longsegs")
+		}
 		sawLine := false
 		for s := 0; s < ns; s++ {
 			k := rapid.IntRange(0, 9).Draw(t, "segkind")
